@@ -14,6 +14,7 @@ from griffe.expressions import Expr, ExprAttribute, ExprBinOp, ExprBoolOp, ExprL
 import safeds_stubgen.api_analyzer._types as sds_types
 
 from ._abstract_docstring_parser import AbstractDocstringParser
+from ._helpers import get_full_docstring
 from ._docstring import (
     AttributeDocstring,
     ClassDocstring,
@@ -45,17 +46,21 @@ class DocstringParser(AbstractDocstringParser):
     def get_class_documentation(self, class_node: nodes.ClassDef) -> ClassDocstring:
         griffe_node = self._get_griffe_node(class_node.fullname)
 
-        if griffe_node is None:  # pragma: no cover
-            raise TypeError(f"Expected a griffe node for {class_node.fullname}, got None.")
+        if griffe_node is not None and griffe_node.is_class:
+            griffe_docstring = griffe_node.docstring
+        else:
+            # The docstring library lists something else under that name (a submodule that is called like the class)
+            griffe_docstring = self._get_own_docstring(class_node)
 
         description = ""
         docstring = ""
         examples = []
-        if griffe_node.docstring is not None:
-            docstring = griffe_node.docstring.value.strip("\n")
+        if griffe_docstring is not None:
+            docstring = griffe_docstring.value.strip("\n")
 
-            for docstring_section in griffe_node.docstring.parsed:
-                if docstring_section.kind == DocstringSectionKind.text:
+            for docstring_section in griffe_docstring.parsed:
+                if docstring_section.kind == DocstringSectionKind.text and not description:
+                    # The description is the text in front of the sections, free text behind them is no second one
                     description = docstring_section.value.strip("\n")
                 elif docstring_section.kind == DocstringSectionKind.examples:
                     for example_data in docstring_section.value:
@@ -71,11 +76,12 @@ class DocstringParser(AbstractDocstringParser):
         docstring = ""
         description = ""
         examples = []
-        griffe_docstring = self.__get_cached_docstring(function_node.fullname)
+        griffe_docstring = self.__get_cached_docstring(function_node.fullname, function_node)
         if griffe_docstring is not None:
             docstring = griffe_docstring.value.strip("\n")
             for docstring_section in griffe_docstring.parsed:
-                if docstring_section.kind == DocstringSectionKind.text:
+                if docstring_section.kind == DocstringSectionKind.text and not description:
+                    # The description is the text in front of the sections, free text behind them is no second one
                     description = docstring_section.value.strip("\n")
                 elif docstring_section.kind == DocstringSectionKind.examples:
                     for example_data in docstring_section.value:
@@ -401,9 +407,9 @@ class DocstringParser(AbstractDocstringParser):
                 griffe_node = griffe_node.functions[part]
             elif part in griffe_node.attributes:
                 griffe_node = griffe_node.attributes[part]
-            elif griffe_node.is_class:
+            elif griffe_node.is_class or not griffe_node.is_package:
                 # A member the docstring library does not list (a missing constructor, a method that consists of
-                # overloads only) has no docstring
+                # overloads only, a member of a class whose name is taken by a submodule) has no docstring there
                 return None
             else:  # pragma: no cover
                 raise ValueError(
@@ -413,7 +419,14 @@ class DocstringParser(AbstractDocstringParser):
 
         return griffe_node
 
-    def __get_cached_docstring(self, qname: str) -> Docstring | None:
+    def _get_own_docstring(self, node: nodes.ClassDef | nodes.FuncDef) -> Docstring | None:
+        """Parse the docstring of a declaration that the docstring library does not list under its name."""
+        text = get_full_docstring(node)
+        if not text:
+            return None
+        return Docstring(text, parser=self.parser, parent=self.griffe_build)
+
+    def __get_cached_docstring(self, qname: str, node: nodes.FuncDef | None = None) -> Docstring | None:
         """
         Return the Docstring for the given function node.
 
@@ -427,7 +440,11 @@ class DocstringParser(AbstractDocstringParser):
             self.__cached_node = qname
 
             griffe_node = self._get_griffe_node(qname)
-            if griffe_node is not None:
+            if node is not None and (griffe_node is None or not griffe_node.is_function):
+                # The docstring library lists something else under that name (a submodule that is called like the
+                # function) or nothing at all
+                self.__cached_docstring = self._get_own_docstring(node)
+            elif griffe_node is not None:
                 griffe_docstring = griffe_node.docstring
                 self.__cached_docstring = griffe_docstring
             else:
